@@ -63,22 +63,36 @@ LOOKUPS = ((G.UNIT + "from_symbol", "symbol", "Unit::from_symbol"),
            (G.HRU + "unit_from_scale", "scale", "HasRefUnit::unit_from_scale"))
 
 
-def lookup_summaries(ctx, config, U):
-    """Gated summaries of the four lookups (delegation between them inlined);
-    the key must be used in comparisons only."""
+def lookup_summaries(ctx, config, U, overrides=None, tag=""):
+    """Gated summaries of the four lookups (delegation between them inlined; for a type that overrides one of them,
+    its own bodies); the key must be used in comparisons only."""
     res = {}
     for path, kind, label in LOOKUPS:
-        outs, b, ev = G.summarize(U, path, {"*"}, stop=G.STOP_LOOKUP)
+        outs, b, ev = G.summarize(U, path, {"*"}, stop=G.STOP_LOOKUP, overrides=overrides)
         try:
             bad = key_only_compared(outs, ev, ("==",) if kind == "symbol" else ("==", "<", "<="))
         except T.Unsupported as x:
             bad = ["unsupported closure: " + x.what]
-        ctx.ob("lookup-key-use", "%s/%s" % (config, label), not bad,
+        ctx.ob("lookup-key-use", "%s/%s%s" % (config, label, tag), not bad,
                "%s uses its key outside comparisons (%s): the finite key partition would not decide it" % (label, bad), b["span"])
         ctx.sample({"function": path, "summary": "; ".join("[%s] %s" % (T.show_guard(g), T.show(t)) for g, k, t in outs)[:400]})
         if not bad:
             res[label] = (kind, outs, b, ev)
     return res
+
+
+LK = {"Unit::from_symbol", "Quantity::unit_from_symbol", "LinearScaledUnit::from_scale", "HasRefUnit::unit_from_scale"}
+
+
+def lookups_of_type(ctx, config, w, q, generic_lookups, counts):
+    ov = {k: v for k, v in G.type_overrides(w.U, q).items() if k in LK}
+    if ov:
+        # this type overrides a lookup: its own bodies are evaluated on its own table
+        own = lookup_summaries(ctx, config, w.U, overrides=ov, tag="/" + q.path)
+        lookup_results(ctx, config, w, q, own, counts)
+        counts["overridden_lookups"] = counts.get("overridden_lookups", 0) + 1
+    else:
+        lookup_results(ctx, config, w, q, generic_lookups, counts)
 
 
 def lookup_results(ctx, config, w, q, lookups, counts):
@@ -141,7 +155,10 @@ def generic_rules(ctx, config, U):
         for tk, (extra, imp) in G.overrides(ctx, "override", U, trait, allowed, label).items():
             if label == "HasRefUnit" and tk in model.AMOUNT_TYPES and extra == ["_fit"]:
                 continue
-            ctx.fail("override", "%s/%s/%s" % (config, label, tk), "impl %s for %s overrides %s" % (label, tk, extra), imp["span"])
+            # overridden lookups are evaluated per type (lookup-result); the other defaults must not be overridden
+            extra = [x for x in extra if x not in ("from_symbol", "unit_from_symbol", "from_scale", "unit_from_scale")]
+            if extra:
+                ctx.fail("override", "%s/%s/%s" % (config, label, tk), "impl %s for %s overrides %s" % (label, tk, extra), imp["span"])
 
 
 def iter_form(ctx, config, U, q):
@@ -175,7 +192,7 @@ def run_config(ctx, config, counts):
     generic_rules(ctx, config, U)
     lookups = lookup_summaries(ctx, config, U)
     for q in w.qtypes:
-        lookup_results(ctx, config, w, q, lookups, counts)
+        lookups_of_type(ctx, config, w, q, lookups, counts)
     for d in w.un_d:
         ctx.fail("linkage", "%s/%s" % (config, d.key), "declared quantity has no generated type", "%s:%d" % (d.file, d.line_start))
     for q in w.un_q:
@@ -266,7 +283,7 @@ def run(ctx):
             ctx.configs.append(cw.config)
             per_type(ctx, cw.config, cw, counts)
             for q in cw.qtypes:
-                lookup_results(ctx, ("f64-" if label == "f64" else "dec-") + cw.config, cw, q, lk[label], counts)
+                lookups_of_type(ctx, ("f64-" if label == "f64" else "dec-") + cw.config, cw, q, lk[label], counts)
     ctx.floor("corpus quantity types", len([t for t in counts["types"] if t[0].startswith("corpus")]), 2 * 30)
     ctx.floor("f64-all quantity types with declaration", len([t for t in counts["types"] if t[0] == "f64-all"]), 27)
     ctx.floor("dec-all quantity types with declaration", len([t for t in counts["types"] if t[0] == "dec-all"]), 24)
